@@ -253,4 +253,201 @@ theorem walk_first (rc : Bool) (lso mb pm : Int) (m : Batch) (r : List Batch) (n
   have h1 : ¬ ((rc && decide (m.first ≥ lso)) = true) := by simpa using h
   simp [h1]
 
+theorem mem_takeWhile_imp2 (f : Batch → Bool) (l : List Batch) (m : Batch) (h : m ∈ l.takeWhile f) : f m = true := by
+  induction l with
+  | nil => simp at h
+  | cons a r ih =>
+    simp only [List.takeWhile] at h
+    split at h
+    · rename_i ha
+      simp only [List.mem_cons] at h
+      rcases h with rfl | h
+      · exact ha
+      · exact ih h
+    · simp at h
+
+
+/-! ### lifting the partition invariant to the broker state -/
+
+/-- what the wire carries: record counts are positive, sequence numbers non-negative. -/
+def Op.valid : Op → Prop
+  | .prod _ _ _ seq n _ _ _ => 1 ≤ n ∧ 0 ≤ seq
+  | _ => True
+
+def AllInv (s : State) : Prop := ∀ pd ∈ s.parts, PInv pd
+
+theorem setProd_parts (s : State) (k : Int) (p : Prod) : (setProd s k p).parts = s.parts := by
+  unfold setProd; split <;> rfl
+
+theorem set_inv (ps : List Part) (p : Nat) (x : Part) (h : ∀ pd ∈ ps, PInv pd) (hx : PInv x) : ∀ pd ∈ ps.set p x, PInv pd := by
+  intro pd hpd
+  rcases List.mem_or_eq_of_mem_set hpd with h1 | h1
+  · exact h pd h1
+  · exact h1 ▸ hx
+
+theorem endTx_inv (s : State) (k : Int) (pr : Prod) (c : Bool) (h : AllInv s) : AllInv (endTx s k pr c) := by
+  have h : ∀ pd ∈ s.parts, PInv pd := h
+  unfold AllInv endTx
+  rw [setProd_parts]
+  simp only
+  generalize pr.txParts = l
+  generalize s.parts = ps at h
+  induction l generalizing ps with
+  | nil => simpa using h
+  | cons q r ih =>
+    simp only [List.foldl_cons]
+    apply ih
+    split
+    · rename_i pd hpd
+      exact set_inv ps q _ h (pinv_endTx pd k pr.epoch c (h pd (List.mem_of_getElem? hpd)))
+    · exact h
+
+theorem expire_inv (f : Nat) (s : State) (h : AllInv s) : AllInv (expire f s) := by
+  induction f generalizing s with
+  | zero => exact h
+  | succ f ih =>
+    simp only [expire]
+    split
+    · exact h
+    · rename_i s' hs'
+      apply ih
+      unfold expireOne at hs'
+      simp only at hs'
+      split at hs'
+      · simp at hs'
+      · simp only [Option.some.injEq] at hs'
+        rw [← hs']
+        exact endTx_inv _ _ _ _ h
+
+theorem expireAll_inv (s : State) (h : AllInv s) : AllInv (expireAll s) := expire_inv _ s h
+
+theorem pidsGet_parts (s : State) (v12 : Bool) (k : Int) (p : Nat) (tx : Bool) : (pidsGet s v12 k p tx).1.parts = s.parts := by
+  unfold pidsGet
+  split
+  · rfl
+  · split
+    · split
+      · simp [setProd_parts]
+      · rfl
+    · rfl
+
+theorem getOrCreate_parts (s : State) (k e : Int) (tx : Bool) (f : Option Prod) : (getOrCreate s k e tx f).1.parts = s.parts := by
+  unfold getOrCreate
+  split
+  · split
+    · rfl
+    · simp [setProd_parts]
+  · rfl
+
+/-- **Contiguous offsets.** A produce request either leaves every partition log untouched, or appends
+exactly its batch to the addressed partition at the high watermark and answers that offset with error 0. -/
+theorem produce_append_aux (s : State) (v12 : Bool) (k epoch seq n nbytes : Int) (p : Nat) (tx : Bool) :
+    (produce s v12 k epoch seq n nbytes p tx).1.parts = s.parts ∨
+    ∃ pd, s.parts[p]? = some pd ∧
+      (produce s v12 k epoch seq n nbytes p tx).1.parts = s.parts.set p (pushBatch pd ⟨0, n, k, epoch, seq, tx, false, false, nbytes⟩ tx) ∧
+      (produce s v12 k epoch seq n nbytes p tx).2.1 = 0 ∧ (produce s v12 k epoch seq n nbytes p tx).2.2.1 = pd.hwm := by
+  unfold produce
+  split
+  · left; rfl
+  · rename_i pd hpd
+    split
+    · left; rfl
+    · split
+      · right; exact ⟨pd, hpd, by simp [setPart], rfl, rfl⟩
+      · simp only
+        split
+        · left; simp [getOrCreate_parts, pidsGet_parts]
+        · split
+          · left; simp [getOrCreate_parts, pidsGet_parts]
+          · split
+            · left; simp [getOrCreate_parts, pidsGet_parts]
+            · split
+              · left; simp [setProd_parts, getOrCreate_parts, pidsGet_parts]
+              · left; simp [setProd_parts, getOrCreate_parts, pidsGet_parts]
+              · right
+                exact ⟨pd, hpd, by simp [setPart, setProd_parts, getOrCreate_parts, pidsGet_parts], rfl, rfl⟩
+
+theorem pushBatch_hwm (pd : Part) (b : Batch) (t : Bool) : (pushBatch pd b t).hwm = pd.hwm + b.n := rfl
+
+/-- the appended batch sits at the old high watermark and the new high watermark is its end. -/
+theorem pushBatch_offsets (pd : Part) (b : Batch) (t : Bool) :
+    (pushBatch pd b t).batches = pd.batches ++ [{ b with first := pd.hwm }] ∧ (pushBatch pd b t).hwm = pd.hwm + b.n := ⟨rfl, rfl⟩
+
+theorem step_inv (s : State) (o : Op) (hv : Op.valid o) (h : AllInv s) : AllInv (step s o).1 := by
+  cases o with
+  | initx k t =>
+    simp only [step]; apply expireAll_inv
+    unfold initx; split
+    · exact h
+    · split <;> (unfold AllInv; simp only [setProd_parts]; exact h)
+  | initr k e =>
+    simp only [step]; apply expireAll_inv
+    unfold initr; split
+    · unfold initx; split
+      · exact h
+      · split <;> (unfold AllInv; simp only [setProd_parts]; exact h)
+    · split
+      · exact h
+      · split
+        · exact h
+        · unfold AllInv; simp only [setProd_parts]
+          split
+          · exact endTx_inv _ _ _ _ h
+          · exact h
+  | addp k e ps =>
+    simp only [step]; apply expireAll_inv
+    unfold addParts; simp only; split
+    · exact h
+    · split
+      · exact h
+      · split
+        · exact h
+        · unfold AllInv; simp only [setProd_parts]; exact h
+  | prod v k e q n nb p tx =>
+    simp only [step]; apply expireAll_inv
+    rcases produce_append_aux s v k e q n nb p tx with h1 | ⟨pd, hpd, h1, _, _⟩
+    · unfold AllInv; rw [h1]; exact h
+    · unfold AllInv; rw [h1]
+      exact set_inv _ _ _ h (pinv_push pd _ tx (by have := hv.1; simp; omega) (h pd (List.mem_of_getElem? hpd)))
+  | endt v k e c =>
+    simp only [step]; apply expireAll_inv
+    unfold endTxn; split
+    · exact h
+    · split
+      · split
+        · split <;> exact h
+        · exact h
+      · split
+        · split
+          · unfold AllInv; simp only [setProd_parts]; exact h
+          · split <;> exact h
+        · split
+          · unfold AllInv; simp only [setProd_parts]; exact endTx_inv _ _ _ _ h
+          · exact endTx_inv _ _ _ _ h
+  | del p off =>
+    simp only [step]; split
+    · exact h
+    · rename_i pd hpd
+      apply expireAll_inv
+      unfold AllInv setPart
+      exact set_inv _ _ _ h (pinv_delete pd off (h pd (List.mem_of_getElem? hpd)))
+  | sleep ms =>
+    simp only [step]; apply expireAll_inv; exact h
+  | fetch f ord =>
+    simp only [step]; apply expireAll_inv
+    unfold Model.C32.fetch; simp only
+    split
+    · split <;> exact h
+    · split
+      · exact h
+      · split
+        · exact h
+        · split <;> exact h
+
+theorem init_inv (np : Nat) : AllInv (init np) := by
+  intro pd hpd
+  simp only [init, List.mem_replicate] at hpd
+  exact hpd.2 ▸ pinv_init
+
+
 end Proof.C32
